@@ -56,7 +56,19 @@ class Built:
             # annotation read by the monitors (plain data; survives deepcopy/clone)
             self.ui_model._vf_defn = defn
         self.calibration_map = {sym(k): v for k, v in defn["calibration_map"].items()}
-        self.process_noise = {sym(k): v for k, v in defn["process_noise"].items()}
+        typed = defn.get("noise_as", {"process": {}, "sensor": {}})
+
+        def typed_value(spec, v):
+            if spec is None:
+                return v
+            import fractions
+
+            kind, num, den = spec
+            t = fractions.Fraction(num, den) if kind == "Fraction" else sympy.Rational(num, den)
+            # a check that rescaled the noise after generation keeps its own value
+            return t if float(t) == v else v
+
+        self.process_noise = {sym(k): typed_value(typed["process"].get(k), v) for k, v in defn["process_noise"].items()}
         rk = defn.get("reading_keys", {})
         self.sensor_models = {}
         self.sensor_noises = {}
@@ -65,7 +77,7 @@ class Built:
             self.sensor_models[sn] = {key(rn): E.to_sympy(ast, self.symtab) for rn, ast in rd.items()}
         for sn, rd in defn["sensor_noises"].items():
             key = (lambda n: sym(n)) if rk.get(sn) == "sym" else (lambda n: n)
-            self.sensor_noises[sn] = {key(rn): v for rn, v in rd.items()}
+            self.sensor_noises[sn] = {key(rn): typed_value(typed["sensor"].get(sn, {}).get(rn), v) for rn, v in rd.items()}
 
     def sym(self, n):
         if n not in self.symtab:
